@@ -34,12 +34,14 @@ idle cores; 48 min were measured at load average 130).
 """
 import io
 import itertools
+import json
 import linecache
 import os
 import re
 import shutil
 import sys
 import tempfile
+import traceback as _pytraceback
 
 from ..par import Result, deadline_passed
 from ..width import sw
@@ -48,6 +50,7 @@ ID = "C17"
 LEVEL = "exploration"
 ENGINE = "E1"
 CAP_S = {"quick": 240, "thorough": 1800}
+FRESH_WORKERS = True   # every shard in a fresh worker: module-level state of rich is part of what is checked
 TECHNIQUE = ("bounded-exhaustive enumeration of sources x lexers x line ranges x option deviations on the real "
              "Syntax/Traceback renderers, judged by splitting the rendered characters into gutter and code and "
              "comparing them with the source lines")
@@ -64,6 +67,14 @@ GUIDE = "│"         # indent guide (and panel border)
 
 # ------------------------------------------------------------------ alphabets
 LINES = ["", "x = 1", "\tif a:", "あ = 'z'", "  y", "{\"k\": [1]}"]
+# Lines that Python and code.split("\n") count as ONE line although they contain characters at which
+# str.splitlines() breaks: a form feed inside a string literal, U+2028 and U+0085 inside a comment.
+FF_LINE = "s = 'a\x0cb'"
+LS_LINE = "# c\u2028d\x85e"
+SPECIAL_LINES = [FF_LINE, LS_LINE]
+SPECIAL_MENU = ["", "x = 1", FF_LINE, LS_LINE]
+# control characters every rich Text drops by design (rich.control: backspace, VT, FF, CR)
+DROPPED_CONTROLS = {8: None, 11: None, 12: None, 13: None}
 LEXERS = ["python", "json", "html", "text", "nolexer"]
 BASE = {"ln": True, "start": 1, "hl": False, "ww": False, "cw": None, "ig": False,
         "theme": "monokai", "W": 60, "tab": 4}
@@ -77,7 +88,12 @@ def _sources(maxn):
     seen = set()
     out = []
     for n in range(maxn + 1):
-        for seq in itertools.product(LINES, repeat=n):
+        seqs = itertools.chain(
+            itertools.product(LINES, repeat=n),
+            # second stratum: every sequence over {blank, plain, form-feed line, U+2028/U+0085 line}
+            # that contains at least one of the two special lines
+            (q for q in itertools.product(SPECIAL_MENU, repeat=n) if FF_LINE in q or LS_LINE in q))
+        for seq in seqs:
             for final in (1, 0, 2):
                 code = "\n".join(seq) + "\n" * final
                 if code not in seen:
@@ -165,7 +181,7 @@ def _src_lines(code, tab):
     last entry: the only place where 'is there a line' is debatable), T = number of
     lines up to the last non-blank one. Everything after T is 'blank lines at the
     very end', which a rendering may show or not."""
-    L = code.expandtabs(tab).split("\n")
+    L = [s.translate(DROPPED_CONTROLS) for s in code.expandtabs(tab).split("\n")]
     T = len(L)
     while T and _blank(L[T - 1]):
         T -= 1
@@ -189,7 +205,7 @@ def _piece_ok(pieces, src, avail, ww, guides):
     if sw(src) <= avail:
         return False
     if ww:
-        return "".join(pieces).replace(" ", "") == src.replace(" ", "")
+        return "".join("".join(pieces).split()) == "".join(src.split())
     return len(pieces) == 1 and src.startswith(pieces[0].rstrip())
 
 
@@ -264,8 +280,8 @@ def _plain_problem(out_lines, L, T, rng, avail, ww):
     """Judge a rendering without gutter. -> None | (clause, message)"""
     overflow = any(sw(s) > avail for s in L)
     if ww and overflow:
-        got = "".join(out_lines).replace(" ", "")
-        want = "".join(L).replace(" ", "")
+        got = "".join("".join(out_lines).split())
+        want = "".join("".join(L).split())
         if (got in want) if rng else (got == want):
             return None
         return ("nonumbers/lines-changed", "wrapped characters %r, source characters %r" % (got, want))
@@ -418,6 +434,149 @@ def _part_syn(sh, tier, res):
                 res.sample({"part": "syn", "code": code, "lexer": lexer, "cases": sum(1 for _ in _unit_cases(code, nseq, tier))})
 
 
+# ------------------------------------------------------------------ part synh (Syntax histories in one process)
+# Events: P = Syntax.from_path(a file with extension e), S = Syntax(code, lexer alias e); both rendered with
+# line numbers and judged by the normal numbered oracle. A history is run in a forked child of a process
+# that has imported rich but rendered nothing (FRESH_WORKERS: every shard starts in a fresh worker), so the
+# module-level state of rich is exactly what the events of this history left behind.
+H_ALIASES = ["json", "html", "py", "xml"]
+H_CODES = ["\n\n{\"k\": [1]}\n", "\nx = 1\n\n  y\n", "x = 1\n"]
+
+
+def _synh_events(tier):
+    rngs = [None] if tier == "quick" else [None, (2, 3)]
+    return [[kind, alias, ci, list(r) if r else None]
+            for kind in "PS" for alias in H_ALIASES for ci in range(len(H_CODES)) for r in rngs]
+
+
+def _synh_cases(tier):
+    evs = _synh_events(tier)
+    for pair in itertools.product(evs, repeat=2):
+        yield {"part": "synh", "events": [list(e) for e in pair]}
+    if tier != "quick":
+        small = [e for e in evs if e[2] == 0 and e[3] is None]
+        for triple in itertools.product(small, repeat=3):
+            yield {"part": "synh", "events": [list(e) for e in triple]}
+
+
+def _run_syn_event(ev, directory, tag):
+    """Executes one event on the real code and judges it. -> None | [clause, message]"""
+    from rich.syntax import Syntax
+    kind, alias, ci, rng = ev
+    code = H_CODES[ci]
+    rng = tuple(rng) if rng else None
+    path = None
+    try:
+        try:
+            if kind == "P":
+                path = os.path.join(directory, "%s.%s" % (tag, alias))
+                with open(path, "w", encoding="utf-8") as f:
+                    f.write(code)
+                syn = Syntax.from_path(path, line_numbers=True, line_range=rng)
+            else:
+                syn = Syntax(code, alias, line_numbers=True, line_range=rng)
+            console = _console(BASE["W"])
+            out = "".join(seg.text for seg in console.render(syn, console.options) if not seg.is_control)
+        except Exception as e:   # noqa: BLE001
+            return [_crash_key("", e).lstrip("/"), "%s: %s" % (type(e).__name__, e)]
+    finally:
+        if path:
+            try:
+                os.remove(path)
+            except OSError:
+                pass
+    out_lines = out.split("\n")
+    if out_lines[-1] == "":
+        out_lines.pop()
+    rows, g = _parse_numbered(out_lines)
+    if rows is None:
+        return ["gutter-malformed", "cannot split %r into marker, number, code" % out_lines]
+    L, T = _src_lines(code, 4)
+    k = _leading_blank(L, T)
+    avail = BASE["W"] - g - 1
+    prob = _numbered_problem(rows, L, T, rng, 1, avail, False, False)
+    if prob and k and prob[0] not in _RANGE_CLASSES and \
+            _numbered_problem(rows, L[k:], T - k, rng, 1, avail, False, False) is None:
+        prob = ("leading-blank-lines-dropped",
+                "the rendering is that of the source without its %d leading blank line(s)" % k)
+    if prob:
+        return [prob[0], "%s | source lines %r | rendered %r" % (prob[1], L, out_lines)]
+    return None
+
+
+def _run_syn_history(events, directory, tag):
+    """-> {"step": index of the first failing event or None, "prob": [clause, message] | None}"""
+    for i, ev in enumerate(events):
+        prob = _run_syn_event(ev, directory, "%s_%d" % (tag, i))
+        if prob:
+            return {"step": i, "prob": prob}
+    return {"step": None, "prob": None}
+
+
+def _in_child(fn):
+    """Runs fn() in a forked child (fresh copy of this process' state) and returns its JSON-able result."""
+    r, w = os.pipe()
+    pid = os.fork()
+    if pid == 0:
+        try:
+            os.close(r)
+            try:
+                data = json.dumps(fn())
+            except BaseException:   # noqa: BLE001
+                data = json.dumps({"harness_error": _pytraceback.format_exc()})
+            with os.fdopen(w, "wb") as f:
+                f.write(data.encode("utf-8"))
+        finally:
+            os._exit(0)
+    os.close(w)
+    with os.fdopen(r, "rb") as f:
+        data = f.read()
+    os.waitpid(pid, 0)
+    got = json.loads(data.decode("utf-8"))
+    assert "harness_error" not in got, got.get("harness_error")
+    return got
+
+
+def check_syn_history(case, directory, tag, res):
+    import rich.console   # noqa: F401 -- imported (not used) before the fork
+    import rich.syntax    # noqa: F401
+    events = case["events"]
+    got = _in_child(lambda: _run_syn_history(events, directory, tag))
+    step, prob = got["step"], got["prob"]
+    res.evaluations += len(events) if step is None else step + 1
+    kinds = "".join(e[0] for e in events)
+    same_alias = len({e[1] for e in events}) == 1
+    res.sig(("synh", kinds, same_alias, any(e[3] for e in events), step, prob[0] if prob else "ok"),
+            nontrivial="P" in kinds and "S" in kinds)
+    if not prob:
+        return
+    key = "syntax/" + prob[0]
+    if step:
+        # diagnosis (chooses the key): the failing event as the first event of a fresh process
+        alone = _in_child(lambda: _run_syn_history([events[step]], directory, tag + "_alone"))
+        if alone["prob"] is None:
+            key = "syntax/history/" + prob[0]
+    res.violate(key, case, "event %d of %r (P = Syntax.from_path of a file with that extension, S = Syntax(code, that "
+                           "lexer alias); code menu %r): %s" % (step + 1, events, H_CODES, prob[1]))
+
+
+def _part_synh(sh, tier, res):
+    directory = tempfile.mkdtemp(prefix="vf_c17_")
+    try:
+        for idx, case in enumerate(_synh_cases(tier)):
+            if idx % sh["n"] != sh["i"]:
+                continue
+            if deadline_passed():
+                res.capped = True
+                break
+            check_syn_history(case, directory, "c17s_%d_%d" % (sh["i"], idx), res)
+            res.count("syn_histories")
+            if idx % 997 == 0:
+                res.sample(case)
+    finally:
+        shutil.rmtree(directory, ignore_errors=True)
+
+
 # ------------------------------------------------------------------ part tb
 SHAPES = ["flat", "nested", "tabs"]
 
@@ -425,12 +584,18 @@ SHAPES = ["flat", "nested", "tabs"]
 def gen_module(shape, b, pre, post, trail, final_nl):
     """-> (text, frames) ; frames = [(lineno, function name)] outermost first."""
     lines = [""] * b
+    shape, _plus, special = shape.partition("+")
+    sp = {"": None, "ff": FF_LINE, "ls": LS_LINE}[special]
     if shape == "flat":
+        if sp:
+            lines.append(sp)
         lines += ["v%d = %d" % (i, i) for i in range(pre)]
         lines.append("raise ValueError('boom')")
         frames = [(len(lines), "<module>")]
     elif shape == "nested":
         lines.append("def f():")
+        if sp:
+            lines.append("    " + sp)
         for i in range(pre):
             lines.append("" if i == 1 else "    a%d = %d" % (i, i))
         lines.append("    raise ValueError('boom')")
@@ -453,7 +618,27 @@ def gen_module(shape, b, pre, post, trail, final_nl):
     return "\n".join(lines) + ("\n" if final_nl else ""), frames
 
 
+SPECIAL_SHAPES = ["flat+ff", "flat+ls", "nested+ff", "nested+ls"]
+
+
 def _tb_cases(tier):
+    return itertools.chain(_tb_cases_plain(tier), _tb_cases_special(tier))
+
+
+def _tb_cases_special(tier):
+    quick = tier == "quick"
+    # a line with a form feed / U+2028 + U+0085 before the raising line (one line for Python and for split("\n"))
+    for shape in SPECIAL_SHAPES:
+        for b in range(0, 5 if quick else 7):
+            for pre in range(0, 4 if quick else 6):
+                for post in range(0, 5 if quick else 7):
+                    for extra in ((0, 3) if quick else (0, 1, 3, 5)):
+                        for ig in ((True,) if quick else (True, False)):
+                            yield {"part": "tb", "shape": shape, "b": b, "pre": pre, "post": post, "trail": 0,
+                                   "final_nl": True, "extra": extra, "ig": ig, "ww": False}
+
+
+def _tb_cases_plain(tier):
     quick = tier == "quick"
     for shape in SHAPES:
         for b in range(0, 5 if quick else 7):
@@ -739,7 +924,9 @@ def plan(tier, seed):
     nt = 16 if tier == "quick" else 48
     # traceback shards first: they are the cheap part and must not be the one a wall cap cuts off
     nh = 8 if tier == "quick" else 16
-    return [{"part": "tbh", "i": i, "n": nh} for i in range(nh)] + \
+    nsh = 4 if tier == "quick" else 16
+    return [{"part": "synh", "i": i, "n": nsh} for i in range(nsh)] + \
+           [{"part": "tbh", "i": i, "n": nh} for i in range(nh)] + \
            [{"part": "tb", "i": i, "n": nt} for i in range(nt)] + \
            [{"part": "syn", "i": i, "n": ns} for i in range(ns)]
 
@@ -750,6 +937,8 @@ def run_shard(sh, tier, seed):
         _part_syn(sh, tier, res)
     elif sh["part"] == "tbh":
         _part_tbh(sh, tier, res)
+    elif sh["part"] == "synh":
+        _part_synh(sh, tier, res)
     else:
         _part_tb(sh, tier, res)
     return res
@@ -802,7 +991,9 @@ def replay(case):
     else:
         directory = tempfile.mkdtemp(prefix="vf_c17_")
         try:
-            if case.get("part") == "tbh":
+            if case.get("part") == "synh":
+                check_syn_history(case, directory, "c17s_replay", res)
+            elif case.get("part") == "tbh":
                 check_history(case, directory, "c17h_replay", res)
             else:
                 check_traceback(case, directory, "c17m_replay", res)
